@@ -154,6 +154,7 @@ class Arm(Robot):
         self._end_effector_pos_global = self._end_effector_home.copy()
         self._original_end_effector_home = self._end_effector_home.copy()
         self._base_pos_global = base_pos_global.copy()
+        self._helper_update_body_screws()
 
     """
     Kinematics
@@ -898,6 +899,7 @@ class Arm(Robot):
         new_home = fsr.localToGlobal(self._end_effector_home, old_to_new)
         self._end_effector_home = new_home
         self._helper_determine_eef_to_last_joint()
+        self._helper_update_body_screws()
         self.FK(self._theta)
 
     #Converted to Python - Joshua
@@ -905,6 +907,7 @@ class Arm(Robot):
         """Restore the original End effector configuration of the arm."""
         self._end_effector_home = self._original_end_effector_home
         self._helper_determine_eef_to_last_joint()
+        self._helper_update_body_screws()
         self.FK(self._theta)
 
     def getScrewList(self) -> 'np.ndarray[float]':
@@ -1458,6 +1461,13 @@ class Arm(Robot):
                 atol = 1e-9, rtol = 0):
             self._eef_to_last_joint = fsr.globalToLocal(
                     self._end_effector_home, self._joint_homes_global[-1])
+
+    def _helper_update_body_screws(self):
+        """Re-derive the body frame screw list from the space screws and the current home tool pose."""
+        for i in range(0, self.num_dof):
+            self.screw_list_body[:, i] = (
+                fmr.Adjoint(self._end_effector_home.inv().gTM()) @
+                self.screw_list[:, i])
 
     def _helper_ensure_theta_not_none(self, theta : 'np.ndarray[float]') -> 'np.ndarray[float]':
         """
